@@ -11,6 +11,7 @@ import (
 
 	"github.com/tychoish/fun"
 	"github.com/tychoish/fun/adt"
+	"github.com/tychoish/fun/ers"
 	"github.com/tychoish/fun/risky"
 )
 
@@ -189,6 +190,13 @@ func (b *Broker[T]) startQueueWorkers(ctx context.Context, dist Distributor[T]) 
 			defer b.wg.Done()
 			for {
 				msg, err := dist.Receive(ctx)
+				if errors.Is(err, ers.ErrCurrentOpSkip) {
+					// the item was rejected by the
+					// distributor's output filter
+					// (WithOutputFilter): skip it, take the
+					// next one; there is nothing to dispatch.
+					continue
+				}
 				if err != nil {
 					return
 				}
